@@ -115,7 +115,9 @@ def brace_values(rng, toks):
     while i < n:
         tt, c, ln = toks[i]
         out.append(toks[i])
-        value_pos = (tt == 'REGISTER' and c != 'default') or tt in ('PRINT', 'PRINTLN') or \
+        # (a register name sets the register only where a statement begins: in `println hue` + `do_it` on the next line the
+        # register is the value printed and `do_it` a call, not a value)
+        value_pos = (tt == 'REGISTER' and c != 'default' and (i == 0 or toks[i - 1][2] != ln)) or tt in ('PRINT', 'PRINTLN') or \
                     (tt == 'NAME' and i > 0 and toks[i - 1][0] == 'ASSIGN')
         if value_pos and i + 1 < n and toks[i + 1][0] in ('NUMBER', 'NAME') and (i == 0 or toks[i - 1][0] not in ('MARK', 'COMPARE', 'WITH', 'DEFINE')) \
                 and (i + 2 >= n or toks[i + 2][0] not in ('MARK', 'COMPARE') or toks[i + 2][1] in '[{') and rng.random() < 0.6:
